@@ -32,13 +32,37 @@ func (c *vBufComp) Flush() error {
 	return err
 }
 
+// vBufCloseComp: the same with a Close method (and still no Reset): closing it writes what is
+// pending and a final block, as compress/flate's writer does.
+type vBufCloseComp struct{ vBufComp }
+
+func (c *vBufCloseComp) Close() error {
+	out := append(c.pend, 1, 0, 0, 0xff, 0xff)
+	c.pend = nil
+	_, err := c.w.Write(out)
+	return err
+}
+
 // C18_flate_resets: after Reset the compression writer and reader behave as new, whatever
 // happened before (tail error, DESTINATION error, data held back, suffix partly consumed).
 func C18_flate_resets() {
 	if vChoose("which", 2) == 0 {
 		bad := &vFailW{}
 		var w *Writer
-		switch vChoose("history", 4) {
+		switch vChoose("history", 5) {
+		case 4: // a compressor with Close but without Reset, after a flushed message or with data still inside
+			w = NewWriter(&vRecW{}, func(x io.Writer) Compressor { return &vBufCloseComp{vBufComp{w: x}} })
+			w.Write(vBytes("old", 5))
+			if vChoose("flushed", 2) == 1 {
+				vAssert(w.Flush() == nil, "flate.closer_history_flush_ok")
+			}
+			dst := &vRecW{}
+			w.Reset(dst)
+			p := vBytes("p", 7)
+			w.Write(p)
+			vAssert(w.Flush() == nil, "flate.closer_flush_after_reset")
+			vAssert(vEqBytes(dst.all, p), "flate.closer_writer_as_new_after_reset")
+			return
 		case 3: // data still inside a compressor that has no Reset method
 			w = NewWriter(&vRecW{}, func(x io.Writer) Compressor { return &vBufComp{w: x} })
 			w.Write(vBytes("old", 5))
